@@ -48,7 +48,7 @@ func reg(s *Scenario) { Scenarios[s.Name] = s }
 func init() {
 	// Q1 basic: requests to two a-resources, b and the parallel p, against With/WithGroup/WithResource.
 	reg(&Scenario{Name: "Q1", Make: func(cfg Cfg) (func(), *Spec) {
-		sp := &Spec{MustRun: []string{"R1", "R2", "R3", "R4", "R5", "W1", "W2", "W3"}, NoHandler: []string{"W4"}, Closes: -1}
+		sp := &Spec{MustRun: []string{"R1", "R2", "R3", "R4", "R5", "W1", "W2", "W3"}, NoHandler: []string{"W4", "W5", "W6"}, Closes: -1}
 		if cfg.Group != "parallel" {
 			sp.Order = append(sp.Order, [2]string{"W1", "W2"})
 		}
@@ -72,6 +72,9 @@ func init() {
 				w.WithGroup("W2", w.RefGroup(w.A("1")))
 				w.WithResource("W3", "t.b")
 				w.With("W4", "t.zz")
+				// near misses of the service name: no separator after it, and the bare name with a trailing dot
+				w.With("W5", "txb")
+				w.With("W6", "tb")
 			})
 			join(done, 2)
 			vsched.AwaitQuiescence()
